@@ -552,7 +552,7 @@ def c01_11(ctx):
     for k, w in want.items():
         if w is not None and defs.get(k) != w:
             ctx.fail(d, d.node, 'dict_concat: `%s = %s`, expected `%s`' % (k, defs.get(k), w), stmt='dict_concat %s' % k)
-    ks = [N(s.value) for s in ast.walk(d.node) if isinstance(s, ast.Assign) and U(s.targets[0]) == 'keys']
+    ks = [N(s.value) for s in body_nodes(d.node) if isinstance(s, ast.Assign) and U(s.targets[0]) == 'keys']
     if ks != ['possible_keys[0]', NS('reduce(lambda res, keys: res | set(keys), possible_keys, set())')]:
         ctx.fail(d, d.node, 'dict_concat keys are %s' % ks)
     s_ = r.fn('_dictable:dictable.__setitem__')
